@@ -16,19 +16,21 @@ ENGINES = [
 NOTES = ("Every check: TLA+ spec (spec/) model-checked with TLC, then bound to the real code by replaying TLC-generated "
          "behaviours / schedules into the engine built from /repo's working tree and/or validating recorded traces. "
          "Exit 2 = infrastructure problem, never a verdict. See DESIGN.md.")
-NOT_APPLICABLE = []
-CHECKS = {}
 
-CHECKS["C08"] = dict(
-    category="model_checking",
-    technique="TLA+ spec of the Gorilla codec case analysis (TLC exhaustive) + replay of every TLC-enumerated class sequence on the real codec and through OpenTSDB ingest/selector query across rotation and restart",
-    text=("spec/Gorilla.tla transcribes the encoder/decoder case analysis (delta-of-delta classes, XOR window reuse/new window, "
-          "field widths); TLC checks BitExact/InSync/Geometry over all class sequences up to MaxLen. Every enumerated sequence "
-          "is concretised against the real encoder state and run through the real compress package (round trip after each step "
-          "+ spec-predicted stream length), and a seeded sample goes end to end: OpenTSDB ingest, selector query while open, "
-          "after block flush, size-driven segment rotation, shutdown rotation and restart, with colliding tag sets."),
-    note=("Classes are (dod class, leading/trailing zero geometry); middle bits random per VERIF_SEED, not all 2^64 values. "
-          "32-bit dod arithmetic modelled with unbounded integers. e2e uses finite values (JSON cannot carry NaN/Inf); several "
-          "datapoints in the same second are not compared. Prometheus remote-write / OTLP metric ingest paths are covered by C16."),
-    design_ref="DESIGN.md 4/C08",
-)
+# per-check texts live next to the check: checks/cNN.py defines MANIFEST = dict(category, technique, text, note, design_ref)
+import importlib, json, os, sys
+_here = os.path.dirname(os.path.abspath(__file__))
+sys.path.insert(0, os.path.join(os.path.dirname(_here), "lib"))
+sys.path.insert(0, os.path.join(os.path.dirname(_here), "checks"))
+CHECKS = {}
+ALL = [json.loads(l)["id"] for l in open(os.path.join(os.path.dirname(_here), "properties.jsonl"))]
+for _pid in ALL:
+    if os.path.exists(os.path.join(os.path.dirname(_here), "checks", _pid.lower() + ".py")):
+        _m = importlib.import_module(_pid.lower())
+        if getattr(_m, "MANIFEST", None) and getattr(_m, "CLAIMED", True):
+            CHECKS[_pid] = _m.MANIFEST
+# explicit reasons for properties that are deliberately not claimed (none so far)
+NOT_CLAIMED_REASON = {}
+NOT_APPLICABLE = [{"property_id": p, "reason": NOT_CLAIMED_REASON.get(p, "not claimed yet: its specification/binding is still under construction (DESIGN.md section 7); no check is registered for it")}
+                  for p in ALL if p not in CHECKS]
+
